@@ -946,11 +946,18 @@ func orderByBindingsChecker() ClauseHook {
 				return nil, fmt.Errorf("order by binding %q unknown; available bindings are %v", cfg.Binding, s.OutputBindings())
 			}
 		}
-		// If dups exist rewrite the order by SortConfig.
+		// If dups exist rewrite the order by SortConfig keeping the first
+		// appearance of each binding, in the order they were listed.
 		if dups {
+			orderBy := s.orderBy
 			s.orderBy = table.SortConfig{}
-			for b, d := range seen {
-				s.orderBy = append(s.orderBy, table.SortConfig{{Binding: b, Desc: d}}...)
+			added := make(map[string]bool)
+			for _, cfg := range orderBy {
+				if added[cfg.Binding] {
+					continue
+				}
+				added[cfg.Binding] = true
+				s.orderBy = append(s.orderBy, table.SortConfig{{Binding: cfg.Binding, Desc: cfg.Desc}}...)
 			}
 		}
 		return hook, nil
